@@ -348,7 +348,38 @@ fn handler_level(r: &mut Report, work: &str, seed: u64, slow: bool) {
             r.count("real_sleeps", 1);
         }
     }
-    // direct expiry: an entry with time limit 1 must be gone after 2.1 s
+    // files whose length at stat time says nothing about what a read returns (procfs reports size 0): the size limit
+    // applies to the bytes actually read and served
+    {
+        let mut c2 = Config::default();
+        c2.logging.console = false;
+        c2.logging.level = humphrey_server::server::logger::LogLevel::Error;
+        c2.cache.size_limit = 64;
+        c2.cache.time_limit = 60;
+        let st2 = Arc::new(AppState::from(c2));
+        std::fs::write(format!("{}/tiny.txt", dir), b"tiny").unwrap();
+        for (path, uri) in [("/proc/version".to_string(), "/version"), (format!("{}/tiny.txt", dir), "/tiny.txt"), ("/proc/self/status".to_string(), "/status"), (format!("{}/tiny.txt", dir), "/tiny.txt")] {
+            r.eval();
+            r.count("handler_requests", 1);
+            let expected_len = std::fs::read(&path).map(|b| b.len()).unwrap_or(0);
+            match hvcommon::util::catch_panic(|| file_handler(mk_req(uri), st2.clone(), &path, 0)) {
+                Err((msg, loc)) => {
+                    r.violation(&format!("C16/handler:panic@{}", loc), format!("file_handler panicked at {} serving {} (stat size differs from the bytes read; cache limit 64): {}", loc, path, msg), J::s(&path), replay.clone());
+                    break;
+                }
+                Ok(resp) => {
+                    if u16::from(resp.status_code) != 200 || (path.ends_with("tiny.txt") && resp.body != b"tiny") || (path == "/proc/version" && resp.body.len() != expected_len) {
+                        r.violation("C16/handler:not-served", format!("{} answered {} with {} bytes", path, u16::from(resp.status_code), resp.body.len()), J::s(&path), replay.clone());
+                    } else {
+                        r.count("stat_size_mismatch_files_served", 1);
+                    }
+                }
+            }
+        }
+    }
+    // direct expiry: an entry with time limit 1 must be gone after 2.1 s; with time limit 0 after one clock second
+    let mut cache0 = mk_cache(100, 0);
+    cache0.set("/z", 0, vec![5; 10], MimeType::from_extension("txt"));
     let mut cache = mk_cache(100, 1);
     cache.set("/x", 0, vec![1, 2, 3], MimeType::from_extension("txt"));
     let hit_now = cache.get("/x", 0).is_some();
@@ -360,6 +391,12 @@ fn handler_level(r: &mut Report, work: &str, seed: u64, slow: bool) {
     }
     if cache.get("/x", 0).is_some() {
         r.violation("C16/stale-hit", "entry with time limit 1 s still returned after 2.15 s", J::Null, replay.clone());
+    }
+    r.eval();
+    if cache0.get("/z", 0).is_some() {
+        r.violation("C16/stale-hit", "entry with time limit 0 s still returned 2.15 s after it was stored (data older than the configured time limit)", J::Null, replay.clone());
+    } else {
+        r.count("time_limit_zero_expired", 1);
     }
     // replacing an EXPIRED entry (same length, shorter, longer; also on another host) makes the new bytes
     // retrievable at once: the stored item's age counts from this store, not from the one it replaces
